@@ -378,7 +378,7 @@ class C15(FrpProp):
 
 class C17(FrpProp):
     pid = "C17"
-    level_text = "Theorems: operational model of lazy.rs (shared thunk/value cells): for any interleaving of new/clone/run the thunk is evaluated at most once and every run through every clone returns the same value; specification: a lazy taken by sample_lazy in transaction T denotes cur of the cell as of T however many transactions later it is forced, through clones, and hold_lazy starts from that value. Known finding K3 (switch_c's initial thunk) is classified by a computable predicate."
+    level_text = "Theorems: operational model of lazy.rs (shared thunk/value cells): for any interleaving of new/clone/run the thunk is evaluated at most once and every run through every clone returns the same value; specification: a lazy taken by sample_lazy in transaction T denotes cur of the cell as of T however many transactions later it is forced, through clones, and hold_lazy starts from that value. The former known finding K3 (switch_c's initial thunk) has been repaired in /repo; its class predicate is kept, unlisted."
     tag = "c17"
     profile = Profile(w=W(hold_lazy=6, accum_lazy=4, map_c=8, lift=8, cloop=3, hold=6, switch_c=1), p_lazy=0.7, p_sample=0.3,
                       n_txn=(4, 14))
@@ -453,8 +453,8 @@ class C07(FrpProp):
                   "self-loops, multi-edges, fired or not); after every collection exactly the reachable objects survive and the candidate "
                   "buffer is empty. The hypothesis (contract) is measured on the real heap by the audit after every collection; the "
                   "end-of-script teardown (drop every handle, unlisten, empty transaction, collect) must leave node_count = 0 on the real "
-                  "library. Leaks through references no tracer reports are exactly what these two detectors find (known findings K3, K5, "
-                  "K1 are classified by computable predicates).")
+                  "library. Leaks through references no tracer reports are exactly what these two detectors find (known findings K5, "
+                  "K1 are classified by computable predicates; K3 has been repaired).")
 
     def extra_oracle(self, lines, out):
         a = audit_oracle(lines, out)
